@@ -475,7 +475,18 @@ func trailingPartial(rs reqSeq) bool { return strings.Contains(rs.name, "partial
 
 func init() {
 	register(&PropDef{ID: "C16", Level: "exploration",
-		Rule:      "(a) for each of the 4 methods, every request frame sequence with 0..3 messages, each whole or split into envelope + continuation, half-close absent or at every position, sent by a raw client to the real server; (b) every response sequence with 0..3 messages (whole/split) and OK/error close sent by a raw server to the real client for each method; (c) 1..3 application SendMsg calls on the non-streaming side of each shape, forward/reverse/revision zero; all schedules with <= 2 (quick) / 3 (thorough) deviations at frame/application granularity; oracle: handler of a non-client-streaming method observes <= 1 request and >= 2 requests end InvalidArgument; caller of a non-server-streaming method succeeds iff exactly one response and OK; the second send is refused and never reaches the wire",
-		Globals:   []func(*Scenario, *World, *Exec) []Violation{ProtoMonitor},
-		Scenarios: c16Scenarios})
+		Rule:    "(a) for each of the 4 methods, every request frame sequence with 0..3 messages, each whole or split into envelope + continuation, half-close absent or at every position, sent by a raw client to the real server; (b) every response sequence with 0..3 messages (whole/split) and OK/error close sent by a raw server to the real client for each method; (c) 1..3 application SendMsg calls on the non-streaming side of each shape, forward/reverse/revision zero; all schedules with <= 2 (quick) / 3 (thorough) deviations at frame/application granularity; oracle: handler of a non-client-streaming method observes <= 1 request and >= 2 requests end InvalidArgument; caller of a non-server-streaming method succeeds iff exactly one response and OK; the second send is refused and never reaches the wire",
+		Globals: []func(*Scenario, *World, *Exec) []Violation{ProtoMonitor},
+		// the small families (b), (c), (d) first: a time-budget cut then costs part of the big family (a) only
+		Scenarios: func(tier string) []*Scenario {
+			var first, rest []*Scenario
+			for _, sc := range c16Scenarios(tier) {
+				if strings.HasPrefix(sc.Name, "c16/a/") {
+					rest = append(rest, sc)
+				} else {
+					first = append(first, sc)
+				}
+			}
+			return append(first, rest...)
+		}})
 }
